@@ -15,6 +15,9 @@ U64 = lambda v: z3.BitVecVal(v, 64)
 class CursorPre(Pre):
     def __init__(self, L, stack, tagged_input=False):
         super().__init__(L, stack=stack)
+        self.setup_cursor(L)
+
+    def setup_cursor(self, L):
         ex = L.ex
         self.inp = L.sym("bitstr::Bitstr", "inp")
         rng = L.field(self.inp, "Bitstr", "range")
@@ -52,49 +55,9 @@ class CursorPre(Pre):
 
 
 def install_overrides(ex):
-    """decoders / bit comparison are uninterpreted here (decided by C05/C04 in E1)"""
-    import re
-
-    def uf(name, ret_ty):
-        def f(ex_, st, fr, callee, args):
-            bs = ex_.get_at(st, args[0].box, args[0].path)
-            rng = ex_.step_get(st, bs, ("f", 0, "std::ops::Range<usize>"))
-            s0 = ex_.step_get(st, rng, ("f", 0, "usize")).t
-            e0 = ex_.step_get(st, rng, ("f", 1, "usize")).t
-            data = ex_.step_get(st, bs, ("f", 1, "std::rc::Rc<std::borrow::Cow<'static, [u8]>>"))
-            dterm = z3.Const("dataid!" + data.box.name, opaque_sort("dataid"))
-            extra = []
-            for a in args[1:]:
-                if isinstance(a, Enum):
-                    extra.append(z3.BitVecVal(ex_.enum_index(a.ty, ex_.summ.variant_of(st, a)), 8))
-                elif isinstance(a, Ref):
-                    b2 = ex_.get_at(st, a.box, a.path)
-                    r2 = ex_.step_get(st, b2, ("f", 0, "std::ops::Range<usize>"))
-                    d2 = ex_.step_get(st, b2, ("f", 1, "std::rc::Rc<std::borrow::Cow<'static, [u8]>>"))
-                    extra += [ex_.step_get(st, r2, ("f", 0, "usize")).t, ex_.step_get(st, r2, ("f", 1, "usize")).t,
-                              z3.Const("dataid!" + d2.box.name, opaque_sort("dataid"))]
-            k, info = ex_.tc.kind(ret_ty)
-            rs = z3.BitVecSort(info[0]) if k == "int" else z3.BoolSort() if k == "bool" else (z3.Float64() if info == 64 else z3.Float32())
-            terms = [s0, e0, dterm] + extra
-            fn = z3.Function("dec_" + name, *([t.sort() for t in terms] + [rs]))
-            t = fn(*terms)
-            if k == "int":
-                return Int(t, info[0], info[1])
-            if k == "bool":
-                return Bool(t)
-            return Float(t, info)
-        return f
-    ex.overrides[r"bitstr::.*::to_uint$|Bitstr::to_uint$"] = uf("to_uint", "u128")
-    ex.overrides[r"bitstr::.*::to_int$|Bitstr::to_int$"] = uf("to_int", "i128")
-    ex.overrides[r"bitstr::.*::to_f32$|Bitstr::to_f32$"] = uf("to_f32", "f32")
-    ex.overrides[r"bitstr::.*::to_f64$|Bitstr::to_f64$"] = uf("to_f64", "f64")
-    ex.overrides[r"bitstr::.*::eq_with$|Bitstr::eq_with$"] = uf("eq_with", "bool")
-
-    def fresh_pos(ex_, st, fr, callee, args):
-        return Enum("Option<usize>", "Some", Struct("", {0: Int(z3.BitVec(ex_.fresh_name("mismatch_pos"), 64), 64, False)}))
-    ex.overrides[r"as Iterator>::position::<\{closure@src/bitstr_ext\.rs"] = fresh_pos
-    ex.overrides[r"^<Bits<'_> as Iterator>::zip"] = lambda ex_, st, fr, c, a: Opaque("iter", z3.Const(ex_.fresh_name("zip"), opaque_sort("iter")))
-    ex.overrides[r"bitstr_num_tags$"] = lambda ex_, st, fr, c, a: Opaque("rpds::RedBlackTreeMap<cell::Cell, cell::Cell>", z3.Const(ex_.fresh_name("numtags"), opaque_sort("rpds::RedBlackTreeMap")))
+    """kept for callers: the Bitstr summaries are standing overrides installed by e2.session"""
+    from e2.bitstr_model import install
+    install(ex)
 
 
 def bitstr_of(L, cell):
@@ -345,4 +308,3 @@ def run(L, tier, only=None):
     if want("open-bitstr"):
         L.lemma("C06 open/close-bitstr", open_close_lemma())
     L.ex.path_budget = None
-    L.ex.overrides.clear()
